@@ -13,8 +13,7 @@ ASSUMPTIONS = ["two concrete file names, the solver chooses which one each step 
 TRUSTED = _T
 _ENC = ["src/odfdo/manifest.py:Manifest.add_full_path,del_full_path,get_media_type,set_media_type,get_paths,_file_entry,make_file_entry",
         "src/odfdo/document.py:Document._add_binary_part,del_part", "src/odfdo/utils/xpath_query.py:xpath_literal"]
-_STUB = ["/verif/shadow/lxml (symdom)", "h_manifest.FakeContainer: dict-backed stand-in for Container (set_part/del_part/parts)",
-         "h_manifest.Doc: Document whose manifest property returns a real Manifest part over an in-memory tree"]
+_STUB = ["/verif/shadow/lxml (symdom)", "memdoc.MemContainer: dict-backed subclass of odfdo.container.Container (get_part/set_part/del_part/parts; parts lists deleted names too, like the real in-memory container) handed to Document(container)"]
 OBLIGATIONS = [
     Obl(name=f"manifest_history_op{_op}", module="h_manifest", func="manifest_history", shadow=True, timeout=600, env={"VERIF_OP1": str(_op)}, extra={"op1": _op, "i1": 0},
         replay="r_h_manifest:manifest_history", weight=110,
